@@ -749,6 +749,37 @@ def gen_directed(rng, tier):
             c = g.program()
             c["sweep"] = True
             cases.append(c)
+    # products over every operand-kind pair and return type
+    mats = [([[2, 2, 1], [-1, 1, -1]], [[0, 0, -2], [2, 0, -2], [2, -2, 0]]),
+            ([[0, -1, -1], [0, 0, 1], [0, -2, 0]], [[-2, -2, -1, 0], [0, 1, -1, -1], [1, 2, -2, 0]]),
+            ([[1, 0], [0, 0], [3, -1]], [[0, 2, 0], [1, -2, 4]])]
+    pk = 0
+    for A, B in (mats if tier != "quick" else mats[:2]):
+        for rt in (None, "coo", "gcxs", "dense"):
+            for fmt, ca in fmts:
+                for side in ("sd", "ds"):
+                    g = Gen(rng, wild=True)
+                    if side == "sd":
+                        g.add_spec(dense_spec(A, 0, fmt, ca))
+                        ok = g.try_step("tensordot_dense", force_p={"b": B, "rt": rt}, force_args=[0])
+                    else:
+                        g.add_spec(dense_spec(B, 0, fmt, ca))
+                        ok = g.try_step("rtensordot_dense", force_p={"a": A, "rt": rt}, force_args=[0])
+                    if ok:
+                        c = g.program()
+                        c["sweep"] = True
+                        c["with_ref"] = True
+                        cases.append(c)
+                for fmt2, ca2 in (fmts if tier != "quick" else [fmts[pk % 4], fmts[(pk + 1) % 4]]):
+                    pk += 1
+                    g = Gen(rng, wild=True)
+                    g.add_spec(dense_spec(A, 0, fmt, ca))
+                    g.add_spec(dense_spec(B, 0, fmt2, ca2))
+                    if g.try_step("tensordot", force_p={"axes": 1, "rt": rt}, force_args=[0, 1]):
+                        c = g.program()
+                        c["sweep"] = True
+                        c["with_ref"] = True
+                        cases.append(c)
     canc = [[-3, 3, 0], [0, -1, -2], [2, -2, 0]]
     steps = [("sum", {"axis": 1, "keepdims": False}), ("sum", {"axis": None, "keepdims": False}), ("sum", {"axis": [0, 1], "keepdims": True}),
              ("nansum", {"axis": 1, "keepdims": False}), ("einsum_tr", {"s": "ij->i"}), ("einsum_tr", {"s": "ij->j"}),
@@ -819,7 +850,7 @@ def gen_ctor(rng, tier):
         if nd == 0:
             coords = [[] for _ in range(rng.choice([0, 1]))]
         data = [rng.choice([fill, 1, 2, -1, -2, 5]) for _ in coords]
-        if i % 53 == 7 and coords:
+        if i % 53 == 7 and coords and nd:
             data = data[:-1]                      # length mismatch -> ValueError
         cases.append({"kind": "ctor", "shape": shape, "coords": coords, "data": data, "fill": fill,
                       "sorted": rng.random() < 0.5, "hd": rng.random() < 0.5, "prune": rng.random() < 0.5})
@@ -975,7 +1006,7 @@ def campaign(build, tier, seed, report, budget=1):
             st = c["steps"][si]
             plains[("st", si)] = p
             pruned_in = all(is_pruned(plains[tuple(a)]) for a in st["args"])
-            ref = c["refs"][si] if not c.get("sweep") else None
+            ref = c["refs"][si] if (not c.get("sweep") or c.get("with_ref")) else None
             kindtag = p.get("k")
             tag(f"{'sweep' if c.get('sweep') else 'prog'}/{st['op']}/{kindtag}")
             if kindtag in ("coo", "gcxs", "dok"):
@@ -1005,7 +1036,7 @@ def campaign(build, tier, seed, report, budget=1):
         if c["kind"] == "scipy":
             tag(f"verdict/{code}")
             viol.append({"property": "C06", "op": "from_scipy:" + c["conv"], "kind": "value", "code": code,
-                         "clause": "from_scipy_sparse_unsorted_indices" if code == 5 else None,
+                         "clause": None,
                          "what": CODE_TEXT.get(code, str(code)), "case": c, "impl": r["r"], "numpy": r["ref"],
                          "replay_py": f"import numpy as np, scipy.sparse as sps, sparse; m = sps.{c['fmt']}_matrix((np.array({c['data']!r}), "
                                       f"np.array({c['indices']!r}), np.array({c['indptr']!r})), shape={tuple(c['shape'])!r}); "
@@ -1022,13 +1053,19 @@ def campaign(build, tier, seed, report, budget=1):
             opnd = r["inputs"][st["args"][0][1]] if st["args"][0][0] == "in" else r["results"][st["args"][0][1]]
             if "n" in kinds and "i" in kinds and opnd.get("k") == "gcxs" and len(opnd["shape"]) >= 2:
                 clause = "gcxs_getitem_newaxis_with_int_malformed"
+        if st["op"] in ("tensordot_dense", "rtensordot_dense", "matmul_dense", "rmatmul_dense") and st["p"].get("rt") in ("coo", "gcxs"):
+            opnd = r["inputs"][st["args"][0][1]] if st["args"][0][0] == "in" else r["results"][st["args"][0][1]]
+            csc_path = opnd.get("k") == "gcxs" and len(opnd["shape"]) == 2 and (
+                (st["op"] == "tensordot_dense" and opnd["caxes"] == [1]) or (st["op"] == "rtensordot_dense" and opnd["caxes"] == [0]))
+            if csc_path:
+                clause = "dot_csc_ndarray_sparse_kernel_unsorted_and_miscounted"
         if st["op"] in ("einsum_tr", "einsum_mm") and code in (2, 3):
             clause = "einsum_result_not_pruned"
         viol.append({"property": "C06", "op": st["op"], "kind": "value", "clause": clause, "code": code,
                      "what": CODE_TEXT.get(code, str(code)), "step": si, "program_depth": len(c["steps"]),
                      "case": {"inputs": c["inputs"], "steps": c["steps"][:si + 1]},
                      "operands_raw": [r["inputs"][a[1]] if a[0] == "in" else r["results"][a[1]] for a in st["args"]],
-                     "impl": r["results"][si], "numpy": c["refs"][si] if not c.get("sweep") else None,
+                     "impl": r["results"][si], "numpy": c["refs"][si] if (not c.get("sweep") or c.get("with_ref")) else None,
                      "replay_py": render(c, si)})
     # ---------------- (c): the constructor model
     clits, cwhere = [], []
